@@ -1018,6 +1018,30 @@ Proof.
   exists outs, rst. split; [exact Hr|]. intros Hcat. apply writer_ok; [assumption|assumption|assumption|congruence].
 Qed.
 
+(* the boolean the correspondence run evaluates on the real encoder's and decoder's results
+   implies the hypothesis of C15_writer / C15_roundtrip / C15_mode_tree *)
+Lemma ameta_eqb_eq a b : ameta_eqb a b = true -> a = b.
+Proof.
+  unfold ameta_eqb. intros H. apply andb_prop in H as [H H3]. apply andb_prop in H as [H1 H2].
+  apply apath_eqb_eq in H1. apply Bool.eqb_prop in H2. apply Z.eqb_eq in H3.
+  destruct a, b. cbn in *. congruence.
+Qed.
+
+Lemma ahdr_okb_ok e : ahdr_okb hdr parse e = true -> hdr_ok hdr parse e.
+Proof.
+  unfold ahdr_okb, hdr_ok. intros H. apply andb_prop in H as [H1 H2]. split.
+  - destruct (parse (hdr (ae_meta e))) as [m|]; [|discriminate]. apply ameta_eqb_eq in H1. congruence.
+  - apply negb_true_iff in H2. intros Hin.
+    assert (existsb (N.eqb ANL) (hdr (ae_meta e)) = true); [|congruence].
+    apply existsb_exists. exists ANL. split; [exact Hin|apply N.eqb_refl].
+Qed.
+
+Theorem ahdr_okb_all es : forallb (ahdr_okb hdr parse) es = true -> Forall (hdr_ok hdr parse) es.
+Proof.
+  intros H. apply Forall_forall. intros e He. apply ahdr_okb_ok.
+  rewrite forallb_forall in H. apply H. exact He.
+Qed.
+
 End ArchiveFinal.
 
 (* the unfixed writer: two file entries leave two descriptors open at once, k entries k *)
